@@ -1785,6 +1785,26 @@ def lax_delete_nodes(c, a, st, v):
              f"{fld} ≡ filter_map(old {fld}, map): got {show_term(t)[:200]}", ok, st, actual=t)
 
 
+def _has_head(x, heads):
+    if isinstance(x, tuple):
+        if x and isinstance(x[0], str) and x[0] in heads:
+            return True
+        return any(_has_head(y, heads) for y in x)
+    if isinstance(x, Poly):
+        return any(_has_head(a_, heads) for a_ in x.atoms())
+    return False
+
+
+def _mentions_term(x, t):
+    if x == t:
+        return True
+    if isinstance(x, tuple):
+        return any(_mentions_term(y, t) for y in x)
+    if isinstance(x, Poly):
+        return any(_mentions_term(a_, t) for a_ in x.atoms())
+    return False
+
+
 def mentions_gather_of(x, idx):
     if isinstance(x, tuple):
         if len(x) == 3 and x[0] == "gather" and x[2] == idx:
@@ -1819,6 +1839,18 @@ def lax_delete_nodes_witness(c, a, st, v):
     c.ob("ENS", "delete_nodes_witness: the pending unifications stay pairs (both columns keep or drop a pair together)",
          f"len(quotient.0') == len(quotient.1'): {show_term(q0)[:120]} / {show_term(q1)[:120]}",
          st.eq(t_len(q0), t_len(q1)), st, actual=(q0, q1) if (opaque(q0) or opaque(q1)) else None)
+    # content of the surviving pairs: each column is read off the OLD pairs (zipped), kept only where BOTH endpoints
+    # survive, and renumbered through the map — whatever loop / iterator form computes it
+    o0, o1 = f.f["quotient"].items[0].t, f.f["quotient"].items[1].t
+    for k_, (t_, own) in enumerate(((q0, o0), (q1, o1))):
+        if t_ == own or (own == EMPTY and t_ == EMPTY):
+            continue
+        summarised = imprecise(t_) and not _mentions_term(t_, own)
+        ok_ = _mentions_term(t_, ("zip", o0, o1)) and mentions_gather_of(t_, o0) and mentions_gather_of(t_, o1) \
+            and not _has_head(t_, ("mapwhile", "takewhile", "slice"))      # a prefix / window is not a filter
+        c.ob("ENS", f"delete_nodes_witness: pending column {k_} = the old pairs whose BOTH endpoints survive, renumbered",
+             f"quotient.{k_}' is read off zip(quotient.0, quotient.1) through the map at both endpoints: got {show_term(t_)[:240]}",
+             ok_, st, actual=("v", "top:summarised") if (summarised and not ok_) else None)
     c.eq(st, "delete_nodes_witness: the reported map has one entry per old node", t_len(v.t), t_len(f.f["nodes"].t))
     c.teq(st, "delete_nodes_witness: hyperedge labels untouched", p.f["edges"].t, f.f["edges"].t)
 
